@@ -12,6 +12,14 @@ Command:        {"a": addrlist, "c": name, ...}
 from . import rx, rxgen
 
 
+MAXLINE, MAXLINES = 20000, 20000
+
+
+class TooBig(Exception):
+    """a generated script made the text grow geometrically (e.g. :g/./%s/.*/&&/): resource exhaustion is outside the properties;
+    the harness sets such a case aside without running the editor on it"""
+
+
 class Fail(Exception):
     pass
 
@@ -63,6 +71,8 @@ class Ed:
         self.touched = False
 
     def _new(self, t):
+        if len(t) > MAXLINE or len(getattr(self, "ln", ())) > MAXLINES:
+            raise TooBig()
         self.nextid += 1
         self.txt[self.nextid] = t
         return self.nextid
@@ -85,6 +95,8 @@ class Ed:
         for k, t in enumerate([] if new_lines is None else new_lines):
             if k < ndel:
                 lid = self.ln[beg + k]
+                if len(t) > MAXLINE:
+                    raise TooBig()
                 self.txt[lid] = t
                 ins.append(lid)
             else:
